@@ -17,10 +17,10 @@ from architecture_simulator.uarch.memory.replacement_strategies import LRU, PLRU
 from architecture_simulator.uarch.memory.memory import MemoryAddressError
 from architecture_simulator.util.integer_manipulation import ByteOffsetError
 from architecture_simulator.uarch.riscv.riscv_performance_metrics import RiscvPerformanceMetrics
-from contracts.rvcommon import data_memory, byte_at, LO, TOP
+from contracts.rvcommon import data_memory, word_memory, byte_at, LO, TOP
 
-QUICK = [(0, 0, 1), (1, 0, 1), (0, 1, 1), (0, 0, 2)]
-THOROUGH = [(1, 1, 2), (1, 0, 2), (0, 1, 2), (0, 0, 4), (2, 0, 1), (0, 2, 1), (0, 0, 3)]
+QUICK = [(0, 0, 1), (1, 0, 1), (0, 1, 1), (0, 0, 2), (1, 0, 2), (1, 1, 2)]
+THOROUGH = [(0, 1, 2), (0, 0, 4), (2, 0, 1), (0, 2, 1), (0, 0, 3), (2, 1, 2), (1, 1, 4)]
 KINDS = [("wb", "lru"), ("wt", "lru"), ("wb", "plru"), ("wt", "plru")]
 
 
@@ -102,12 +102,12 @@ def all_x(g):
 
 
 # ------------------------------------------------------------------ state builder
-def build(g):
+def build(g, bytes_backing=False):
     """Real constructor, then havoc everything wf_cache lets vary."""
     cls = WriteBackMemorySystem if g.kind == "wb" else WriteThroughMemorySystem
     pm = RiscvPerformanceMetrics()
     pm.cycles = sym_int("cycles", 0)
-    ms = cls(memory=data_memory("M"), num_index_bits=g.ib, num_block_bits=g.bb, associativity=g.assoc,
+    ms = cls(memory=data_memory("M") if bytes_backing else word_memory("MW"), num_index_bits=g.ib, num_block_bits=g.bb, associativity=g.assoc,
              performance_metrics=pm, miss_penality=sym_int("penalty", 0), replacement_strategy=g.pol)
     ms.hits = sym_int("hits", 0)
     ms.accesses = sym_int("accesses", 0)
@@ -155,6 +155,9 @@ def backing_byte(ms, x):
 
 
 def backing_word(ms, a):
+    """backing word at the aligned address a"""
+    if not native() and hasattr(ms.memory, "W"):
+        return ms.memory.word(a)
     return backing_byte(ms, a) + 256 * backing_byte(ms, a + 1) + 65536 * backing_byte(ms, a + 2) + 16777216 * backing_byte(ms, a + 3)
 
 
@@ -444,7 +447,7 @@ def direct_write_unit(g, width, focus):
     """Parser preload: directly_write_to_lower_memory=True, any alignment.  Precondition (established by reset()
     before parsing): no touched block is resident."""
     n = WIDTH[width]
-    ms = build(g)
+    ms = build(g, bytes_backing=True)
     a = sym_int("a", -2 ** 33, 2 ** 33)
     v = sym_fixed("v", FT[width])
     xf = sym_addr(g, "x")
